@@ -20,6 +20,8 @@ import (
 	"pgregory.net/rapid"
 )
 
+const c08OfflineSet = "c08-offline-set" // marker (raw op): {set desc.private sub.mode} on the unloaded group; X = [private value, mode]
+
 func c08Gen(rt *rapid.T) wProg {
 	p := wProg{}
 	p.Cfg = wConfig{Users: 4, Root: gPct(rt, 40)}
@@ -165,6 +167,20 @@ func c08Gen(rt *rapid.T) wProg {
 				wOp{K: "get", S: s, T: "me", A: "tags"},
 				wOp{K: "raw", S: s, A: wJSON(map[string]any{"del": map[string]any{"id": "$id", "topic": "me", "what": "cred", "cred": map[string]any{"meth": wValidatorName, "val": val}}})},
 				wOp{K: "get", S: s, T: "me", A: "tags"})
+		case x < 12 && gPct(rt, 35):
+			// everybody leaves, the group is unloaded; a member then changes the private comment and the
+			// requested mode in one request, which the hub serves from the store
+			s := gInt(rt, 1, len(p.Sess)-1, "offs")
+			var ins []wOp
+			ins = append(ins, wOp{K: "sub", S: s, T: "g0"})
+			for k := range p.Sess {
+				ins = append(ins, wOp{K: "leave", S: k, T: "g0"}, wOp{K: "leave", S: k, T: "c0"})
+			}
+			v, m := gPick(rt, []string{"oa", "ob"}, "offv"), gPick(rt, []string{"JRP", "JRWP", "JR"}, "offm")
+			ins = append(ins, wOp{K: "tick", N: 5500}, wOp{K: "raw", S: s, B: c08OfflineSet, X: []string{v, m},
+				A: wJSON(map[string]any{"set": map[string]any{"id": "$id", "topic": "$g0", "desc": map[string]any{"private": map[string]any{"c": v}}, "sub": map[string]any{"mode": m}}})},
+				wOp{K: "sub", S: s, T: "g0"}, wOp{K: "get", S: s, T: "g0", A: "desc"})
+			p.Ops = append(p.Ops, ins...)
 		case x < 10:
 			// a store failure in the middle of a request which makes two writes
 			s := gInt(rt, 0, len(p.Sess)-1, "s")
@@ -602,6 +618,20 @@ func opShape(op *wOp) string {
 
 func (o *c08Obs) After(w *wWorld, st *wStep) *kit.Viol {
 	o.steps++
+	if st.Op.K == "raw" && st.Op.B == c08OfflineSet && !st.Skipped && !st.Fired && len(st.Op.X) == 2 && st.User >= 0 {
+		// a {set} which carries a private comment and a requested mode, served from the store because the
+		// topic is not loaded: once acknowledged, both are in the store
+		if c := st.reply(); c != nil && c.Code == 200 && w.liveTopics()[w.groups[0]] == nil {
+			for _, r := range mem.A.Snapshot().Subs {
+				if r.Topic == w.groups[0] && r.User == w.users[st.User].uid && r.DeletedAt == nil {
+					o.features["offline-set-two-fields"] = true
+					if want := `{"c":"` + st.Op.X[0] + `"}`; canonJSON(r.Private) != canonJSON([]byte(want)) || r.ModeWant.String() != st.Op.X[1] {
+						return kit.V("acknowledged-offline-set-not-stored", "%s was answered 200; the stored subscription has private %s and want %v", st.Req, canonJSON(r.Private), r.ModeWant)
+					}
+				}
+			}
+		}
+	}
 	defer func() {
 		if st.Fired || st.Crashed {
 			o.anyFault = true
